@@ -797,9 +797,12 @@ PROPS["C12"] = dict(lean=["ChfVerif.Props.C12"], explore=explore_c12,
 
 def explore_c10(ctx, res, replay_ops=None):
     n = n_for(ctx, 700, 6000)
-    r = chf_run(ctx, res, n, replay_ops, gen_extra=("-mode", "names"))
+    # + one-time events (they return no reference) and creates refused by OpenCDR between accepted ones (mode events);
+    #   names with characters that are escaped in a URI (mode escapes)
+    r = chf_run(ctx, res, n, replay_ops, gen_extra=("-mode", "names"), also=[("events", 300, 2500), ("escapes", 300, 2500)])
     live = {}       # reference -> (supi, chargingId) of the create that returned it
     lsn_of = {}
+    prev_recs = {}  # supi -> records as dumped after the previous operation
     for i, (op, im, mo) in enumerate(zip(r.ops, r.impl, r.model)):
         t = op.split()
         kind = t[1]
@@ -807,6 +810,7 @@ def explore_c10(ctx, res, replay_ops=None):
             continue
         if kind == "reset":
             live = {}
+            prev_recs = {}
             continue
         if kind not in ("create", "update", "release"):
             continue
@@ -816,7 +820,24 @@ def explore_c10(ctx, res, replay_ops=None):
             continue
         res.evaluations += 1
         hist = lambda: _chf_history(r.ops, i) + ["# impl: " + strip_annot(im)[:1500]]
-        if kind == "create" and o.status() == 201:
+        cur_recs = {supi: ([] if u["rec"] == "-" else u["rec"].split("|")) for supi, u in o.ues.items()}
+        if kind in ("update", "release"):
+            # "... designates that session and only it": whatever the answer, a request addressed to a reference leaves
+            # the records of every OTHER session (of every subscriber) exactly as they were
+            for supi, recs in cur_recs.items():
+                before = prev_recs.get(supi, [])
+                for k, rec in enumerate(recs):
+                    if rec.startswith("sid=" + t[2] + ","):
+                        continue
+                    if k >= len(before) or before[k] != rec:
+                        res.violation("oracle", "C10: the %s addressed to reference %s changed a record of another session (%s)" % (
+                            kind, t[2], rec.split(",")[0]), hist() + ["# record before: " + (before[k] if k < len(before) else "(none)")[:400],
+                                                                      "# record after:  " + rec[:400]])
+                        break
+        prev_recs = cur_recs
+        if kind == "create" and o.status() == 201 and o.f.get("loc") == "-":
+            res.dist["one-time-event(no reference)"] += 1
+        elif kind == "create" and o.status() == 201:
             rq = _parse_req(t[2:])
             loc = o.f.get("loc")
             res.dist["create"] += 1
@@ -874,7 +895,8 @@ def _rec_usage(rec):
 
 def explore_c02(ctx, res, replay_ops=None):
     n = n_for(ctx, 700, 6000)
-    r = chf_run(ctx, res, n, replay_ops)
+    # + one-time events with and without usage around the subscriber's sessions (mode events)
+    r = chf_run(ctx, res, n, replay_ops, also=[("events", 300, 2500)])
     expect = {}     # (supi, sid) -> [container "lsn/total/up/down/ssu" …] in report order
     ident = {}      # (supi, sid) -> identity prefix of the record at creation
     released = set()
@@ -902,6 +924,10 @@ def explore_c02(ctx, res, replay_ops=None):
                 rq = _parse_req(t[3:])
                 sid = t[2]
             key = (rq["supi"], sid)
+            if kind == "create" and sid == "-":
+                # a one-time event has no reference: its record is known by its place in the subscriber's records
+                nrec = o.ues.get(rq["supi"], {}).get("rec", "-")
+                key = (rq["supi"], "-#%d" % (len(nrec.split("|")) - 1))
             conts = ["%d/%d/%d/%d/%d" % (c[5], c[1], c[2], c[3], c[4]) for u in rq["usages"] for c in u["conts"]]
             expect.setdefault(key, []).extend(conts)
             if conts:
@@ -913,9 +939,9 @@ def explore_c02(ctx, res, replay_ops=None):
         for supi, u in o.ues.items():
             if u["rec"] == "-":
                 continue
-            for rec in u["rec"].split("|"):
+            for ridx, rec in enumerate(u["rec"].split("|")):
                 f = dict(x.split("=", 1) for x in rec.split(",u=")[0].split(","))
-                k = (supi, f["sid"])
+                k = (supi, f["sid"] if f["sid"] != "-" else "-#%d" % ridx)
                 got.setdefault(k, []).extend(c for (_, _, cs) in _rec_usage(rec) for c in cs)
                 idp = "sub=%s,cid=%s,nf=%s" % (f["sub"], f["cid"], f["nf"])
                 if k in ident and ident[k] != idp:
@@ -923,8 +949,22 @@ def explore_c02(ctx, res, replay_ops=None):
                 ident.setdefault(k, idp)
                 if f["sub"] != "1." + supi[10:]:
                     res.violation("oracle", "C02: record of %s carries subscriber identity %s" % (supi, f["sub"]), hist())
-                if k in released and rec == u["rec"].split("|")[-1] and f["cause"] != "0":
-                    pass
+        # cause for closing: normal (0) for the record of a session that has just been released, partial record (1) for
+        # the record a partial closure has just cut (online usage reported with a trigger list not ending in FINAL)
+        if o.status() // 100 == 2 and kind in ("update", "release"):
+            mine = [rec for rec in (o.ues.get(rq["supi"], {}).get("rec", "-").split("|")) if rec.startswith("sid=" + sid + ",")]
+            if mine:
+                cause = dict(x.split("=", 1) for x in mine[-1].split(",u=")[0].split(",")).get("cause")
+                online = any(c[0] == 1 for u in rq["usages"] for c in u["conts"])
+                partial = online and rq["trigs"] and rq["trigs"][-1] != "F"
+                if kind == "release":
+                    res.dist["release:cause-checked"] += 1
+                    if cause != "0":
+                        res.violation("oracle", "C02: the record of the released session %s carries cause for record closing %s, not 0 (normal release)" % (sid, cause), hist())
+                elif partial:
+                    res.dist["partial-closure:cause-checked"] += 1
+                    if cause != "1":
+                        res.violation("oracle", "C02: the record cut by a partial closure of session %s carries cause for record closing %s, not 1 (partial record)" % (sid, cause), hist())
         res.traces_validated += 1
         for k, want in expect.items():
             if got.get(k, []) != want:
